@@ -285,6 +285,9 @@ func c03Dump(v reflect.Value, b *strings.Builder, depth int) {
 			fmt.Fprintf(b, "x%x", v.Bytes())
 			return
 		}
+		if v.Kind() == reflect.Slice && v.IsNil() {
+			b.WriteString("nil") // a nil list and an empty one differ for the caller (JSON null / [], reflect.DeepEqual)
+		}
 		b.WriteString("[")
 		for i := 0; i < v.Len(); i++ {
 			c03Dump(v.Index(i), b, depth+1)
@@ -371,6 +374,9 @@ func c03DiffPath(a, b reflect.Value, path string, depth int) string {
 	case reflect.Slice, reflect.Array:
 		if a.Len() != b.Len() {
 			return path + "(len)"
+		}
+		if a.Kind() == reflect.Slice && a.Type().Elem().Kind() != reflect.Uint8 && a.IsNil() != b.IsNil() {
+			return path + "(nil)"
 		}
 		for i := 0; i < a.Len(); i++ {
 			if d := c03DiffPath(a.Index(i), b.Index(i), path+"[]", depth+1); d != "" {
